@@ -56,19 +56,25 @@ def check_list(items, R, expected=None):
             R.fail("C15.roundtrip", f"decode(encode(x)) = {back!r:.300} for x = {items!r:.300}")
             return
     if expected is not None:
-        exp = []
+        # What the filter may return for a well-formed message: items of expected types only, in wire order, nothing invented; at least everything in
+        # front of the first item of another type.  (Whether well-formed items of other types end the message or are skipped is the tree's choice:
+        # it skipped nothing before the repair recorded as section 6 item 26 and skips them since.)
+        prefix = []
         for t, v in items:
             if t not in expected:
                 break
-            exp.append((t, v))
+            prefix.append((t, v))
+        wanted = [(t, v) for t, v in items if t in expected]
         try:
             back = norm(TLV.decode_bytes(ref, list(expected)))
         except Exception as e:  # noqa: BLE001
             R.fail("C15.filter-raises", f"{type(e).__name__}: {e}", exc=type(e).__name__)
             return
-        if back != exp:
-            R.fail("C15.filter", f"expected={sorted(expected)} got {back!r:.300} want {exp!r:.300} for {items!r:.300}")
-        R.cls("filter cuts" if len(exp) < len(items) else "filter passes all")
+        it = iter(wanted)
+        is_subseq = all(any(x == y for y in it) for x in back)
+        if back[:len(prefix)] != prefix or not is_subseq:
+            R.fail("C15.filter", f"expected={sorted(expected)} got {back!r:.300}; items of expected types {wanted!r:.300}, leading ones {prefix!r:.200}")
+        R.cls("filter cuts" if len(prefix) < len(items) else "filter passes all", "filter:skips-others" if back == wanted and len(prefix) < len(wanted) else "filter:other")
 
 
 def run_items(case, R):
